@@ -70,6 +70,13 @@ def gen_mc_prims(rng, n):
             prims.append(['stop'])
         else:
             prims.append(['wait', rng.choice([0.05, 0.2, 0.45, 1.0])])
+        if rng.random() < 0.15 and len(prims) < 40:
+            # a remote-control style loop: the command now in effect is re-issued at a fixed rate
+            last = prims[-1]
+            rep = last if last[0] in ('start', 'start_turn', 'start_circle', 'stop') else ['stop']
+            for _r in range(rng.choice([1, 3, 8])):
+                prims.append(['wait', rng.choice([0.05, 0.1, 0.15])])
+                prims.append(list(rep))
     return prims
 
 
@@ -305,7 +312,7 @@ def execute(ctx):
         P.sim_sleep(0.2)
 
     verdict = sim.run(scenario)
-    if verdict[0] in ('deadlock', 'timeout'):
+    if verdict[0] in ('deadlock', 'timeout', 'livelock'):
         from simkit.harness import hang_signature
         sg, msg = hang_signature(verdict)
         ctx.violation('6', sg, msg, verdict[1])
